@@ -44,3 +44,11 @@ def checksum_ok(ws):
 
 def phrase(ws):
     return " ".join([WORDS[i] for i in ws])
+
+
+def wordlist_digest(words):
+    """SHA-256 of the canonical file form (one word per line, LF, trailing LF) of bitcoin/bips bip-0039/english.txt"""
+    return hashlib.sha256(("\n".join(words) + "\n").encode()).hexdigest()
+
+
+ENGLISH_SHA256 = "2f5eed53a4727b4bf8880d8f3f199efc90e58503646d9ff8eff3a2ed3b24dbda"
